@@ -56,7 +56,7 @@ import math
 from rv.sim import Bench
 
 PROPERTY = "C42"
-CASES = {"quick": 256, "thorough": 4000}
+CASES = {"quick": 192, "thorough": 2880}
 TIMEOUT = {"quick": 3600, "thorough": 8 * 3600}      # generous: the watchdog only exists to turn a hang into "inconclusive"
 RULE = ("case = wrapper with 3 LFPSDetectors (polling|synthetic periodic, ping|synthetic ping-like, reset|synthetic one-shot), "
         "1 LFPSGenerator and (1 in 5) an LFPSTransceiver at random non-round clocks, each fed ~25k cycles of a templated "
